@@ -50,7 +50,7 @@ class Pipe(chan.ChannelScenario):
         p = self.params
         s = p["pre"].encode("latin-1") if isinstance(p["pre"], str) else p["pre"]
         for seg, guard in p.get("segments", []):
-            if guard != "eof":
+            if guard != "eof" and not (isinstance(seg, str) and seg.startswith("@")):
                 s += seg.encode("latin-1") if isinstance(seg, str) else seg
         return s
 
@@ -70,7 +70,11 @@ class Pipe(chan.ChannelScenario):
                 g = lambda sock=sock: b"100 Continue" in sock.out
             else:
                 g = None
-            if guard == "eof":
+            if isinstance(seg, str) and seg.startswith("@release:"):
+                act = lambda f=seg.split(":", 1)[1]: flags.__setitem__(f, True)
+            elif isinstance(seg, str) and seg.startswith("@clock:"):
+                act = lambda d=float(seg.split(":", 1)[1]): setattr(W, "now", W.now + d)
+            elif guard == "eof":
                 act = lambda sock=sock: sock.client_eof()
             else:
                 act = lambda sock=sock, data=data: sock.client_send(data)
